@@ -438,7 +438,22 @@ pub fn level_into(which: Which, rep: &mut Report) {
     }
     // (the acknowledgement checker is quadratic in the history length: C13 keeps the short run)
     let ex_ops = if which == Which::C13 { budget(tier, 6_000, 10_000) } else { budget(tier, 6_000, 60_000) };
-    exchange(rep, which, ex_ops);
+    // one run on a shallow book, then warmed-up books (quick: one depth chosen by the seed;
+    // thorough: all of them)
+    exchange(rep, which, ex_ops, 0, false);
+    let deep = [40usize, 150, 700];
+    match tier {
+        Tier::Quick => {
+            exchange(rep, which, ex_ops / 2, deep[(seed % 3) as usize], false);
+            exchange(rep, which, ex_ops / 2, deep[((seed / 3 + 1) % 3) as usize], true);
+        }
+        Tier::Thorough => {
+            for d in deep {
+                exchange(rep, which, ex_ops, d, false);
+                exchange(rep, which, ex_ops, d, true);
+            }
+        }
+    }
     if tier == Tier::Thorough && which == Which::C03 && std::env::var("PLV_NO_MIRI").is_err() {
         crate::miri::sweep(rep, "level", seed, 4, budget(tier, 0, 160), "0.05");
     }
@@ -1422,7 +1437,7 @@ pub fn mini(seed: u64, n: u64) -> i32 {
 // 10^5 - 10^6 operations; the per-order search is run for every one of its orders.
 // ---------------------------------------------------------------------------------------------
 
-pub fn exchange(rep: &mut Report, which: Which, ops_per_thread: u64) {
+pub fn exchange(rep: &mut Report, which: Which, ops_per_thread: u64, warm: usize, plain: bool) {
     use std::sync::atomic::{AtomicBool, Ordering::SeqCst};
     crate::hook::install();
     let seed = rep.seed;
@@ -1435,6 +1450,43 @@ pub fn exchange(rep: &mut Report, which: Which, ops_per_thread: u64) {
     let roles: Vec<u8> = vec![0, 0, 0, 0, 1, 1, 1, 1, 2, 2, 2, 3, 3, 3];
     let mut polled: Vec<(u64, u64, u64)> = Vec::new();
     let mut logs: Vec<Vec<conc::CRec>> = Vec::new();
+    // book depth tier: the book is warmed up with 0 / 40 / 150 / 700 orders (logged calls of a
+    // pseudo thread) and the adders keep it up to 48 above that: past a 31-slot queue block, past
+    // the map's growth steps
+    let seed = seed ^ (warm as u64).wrapping_mul(0x9E37_79B9) ^ if plain { 0x71a1 } else { 0 };
+    let cap = 48 + warm;
+    {
+        let ti = roles.len();
+        let cfg = ProgCfg::base();
+        let mut rng = Rng::derive(seed ^ 0xe8c4, ti as u64);
+        let mut log: Vec<conc::CRec> = Vec::with_capacity(warm);
+        for oi in 0..warm {
+            let mut r2 = Rng::new(rng.next_u64());
+            let mut o = conc_small(&mut r2, 1 + ti as u64 * 10_000_000 + oi as u64, price, &cfg);
+            if model::vis(&o) == 0 {
+                o = model::with_qty(&o, 1, model::hid(&o));
+            }
+            if plain {
+                o = plain_of(&o, price);
+            }
+            let op = COp::Add(o);
+            conc_raise(&bounds, &op);
+            let call = conc::E2_CLOCK.fetch_add(1, SeqCst);
+            let res = conc_apply(&level, &idgen, &op);
+            let ret = conc::E2_CLOCK.fetch_add(1, SeqCst);
+            recent.lock().unwrap().push(model::id_of(&o));
+            log.push(conc::CRec {
+                thread: ti,
+                idx: oi,
+                op,
+                call,
+                ret,
+                res,
+            });
+        }
+        logs.push(log);
+    }
+    rep.add(&format!("exchange_runs_with_book_warmed_to_{}{}", warm, if plain { "(one-fill orders only)" } else { "" }), 1);
     std::thread::scope(|s| {
         let mut hs = Vec::new();
         for (ti, role) in roles.iter().enumerate() {
@@ -1452,7 +1504,7 @@ pub fn exchange(rep: &mut Report, which: Which, ops_per_thread: u64) {
                 for oi in 0..ops_per_thread {
                     let op = match role {
                         0 => {
-                            if level.order_count() > 48 {
+                            if level.order_count() > cap {
                                 std::thread::yield_now();
                                 continue;
                             }
@@ -1462,10 +1514,21 @@ pub fn exchange(rep: &mut Report, which: Which, ops_per_thread: u64) {
                             if model::vis(&o) == 0 {
                                 o = model::with_qty(&o, 1, model::hid(&o));
                             }
+                            if plain {
+                                o = plain_of(&o, price);
+                            }
                             COp::Add(o)
                         }
                         1 => COp::Match {
-                            qty: rng.range(1, 25),
+                            // mostly a few orders' worth; on a deep book now and then a sweep over
+                            // dozens of orders, and (rarely) over everything that is displayed
+                            qty: if warm > 0 && rng.chance(1, if plain { 150 } else { 600 }) {
+                                1 << 40
+                            } else if warm > 0 && rng.chance(1, 24) {
+                                rng.range(25, 400)
+                            } else {
+                                rng.range(1, 25)
+                            },
                             taker: model::oid(900_000_000 + ti as u64 * 10_000_000 + oi),
                         },
                         _ => {
@@ -1660,6 +1723,25 @@ fn conc_small(rng: &mut Rng, idn: u64, price: u64, cfg: &ProgCfg) -> model::Orde
             model::mk(k, model::oid(idn), price, model::vis(&o), model::hid(&o), pricelevel::Side::Sell, idn, pricelevel::TimeInForce::Gtc, &params)
         }
     }
+}
+
+/// the same order as a one-fill order (nothing hidden)
+fn plain_of(o: &model::Order, price: u64) -> model::Order {
+    let k = match model::kind_of(o) {
+        model::Kind::Iceberg | model::Kind::Reserve => model::Kind::Standard,
+        k => k,
+    };
+    model::mk(
+        k,
+        model::id_of(o),
+        price,
+        model::vis(o).max(1),
+        0,
+        pricelevel::Side::Sell,
+        model::ts_of(o),
+        pricelevel::TimeInForce::Gtc,
+        &model::Params::default(),
+    )
 }
 
 fn conc_raise(b: &Bounds, op: &COp) {
